@@ -205,6 +205,60 @@ let handle kind a =
             | [] -> "_"
             | rows -> String.concat " " (List.map (fun (r, t) ->
                 show_res dec_of_n r ^ "@" ^ show_res show_vp t) rows))
+  | "hshift" ->
+      (* SeekBytesShift.hshift_run: reader A = ops1, tell, reads; reader B = mid, seek(told), reads *)
+      let fb = bytes_of_hex a.(0) in
+      let parse_ops t = if t = "_" then [] else List.map (fun p ->
+        let t = String.sub p 1 (String.length p - 1) in
+        match p.[0] with
+        | 'r' -> Some (BRead (n_of_dec t))
+        | _ -> (match split_on ':' t with
+                | [c; u] -> (match vpos_try_from (n_of_dec c) (n_of_dec u) with
+                             | Some v -> Some (BSeek v) | None -> None)
+                | _ -> failwith "hshift seek")) (split_on ',' t) in
+      let ops1 = parse_ops a.(1) and mid = parse_ops a.(2) in
+      let ns = if a.(3) = "_" then [] else List.map n_of_dec (split_on ',' a.(3)) in
+      if List.mem None ops1 || List.mem None mid then None else
+      let get = List.map (function Some o -> o | None -> assert false) in
+      let rows = function
+        | [] -> "_"
+        | rows -> String.concat " " (List.map (fun (r, t) ->
+            show_res dec_of_n r ^ "@" ^ show_res show_vp t) rows) in
+      let (((h1, tv), rows_a), b) = hshift_run fb (get ops1) (get mid) ns in
+      Some (String.concat " | " [rows h1; show_res show_vp tv; rows rows_a;
+              (match b with
+               | None -> "-"
+               | Some ((x, t), rows_b) ->
+                   show_res dec_of_n x ^ "@" ^ show_res show_vp t ^ " | " ^ rows rows_b)])
+  | "hreloc" ->
+      (* SeekBytesReloc.hreloc_run: reader B = mid, seek(v), reads; reader C over the bytes from
+         the block offset on = seek((0,u)), reads; C's rows moved by the block offset *)
+      let fb = bytes_of_hex a.(0) in
+      let parse_ops t = if t = "_" then [] else List.map (fun p ->
+        let t = String.sub p 1 (String.length p - 1) in
+        match p.[0] with
+        | 'r' -> Some (BRead (n_of_dec t))
+        | _ -> (match split_on ':' t with
+                | [c; u] -> (match vpos_try_from (n_of_dec c) (n_of_dec u) with
+                             | Some v -> Some (BSeek v) | None -> None)
+                | _ -> failwith "hreloc seek")) (split_on ',' t) in
+      let mid = parse_ops a.(1) in
+      let v = (match split_on ':' a.(2) with
+               | [c; u] -> vpos_try_from (n_of_dec c) (n_of_dec u)
+               | _ -> failwith "hreloc target") in
+      let ns = if a.(3) = "_" then [] else List.map n_of_dec (split_on ',' a.(3)) in
+      if List.mem None mid || v = None then None else
+      let get = List.map (function Some o -> o | None -> assert false) in
+      let v = (match v with Some v -> v | None -> assert false) in
+      let rows = function
+        | [] -> "_"
+        | rows -> String.concat " " (List.map (fun (r, t) ->
+            show_res dec_of_n r ^ "@" ^ show_res show_vp t) rows) in
+      let ((((xb, tb), rows_b), ((xc, tc), rows_c)), (tm, rows_m)) = hreloc_run fb (get mid) v ns in
+      Some (String.concat " | " [
+              show_res dec_of_n xb ^ "@" ^ show_res show_vp tb; rows rows_b;
+              show_res dec_of_n xc ^ "@" ^ show_res show_vp tc; rows rows_c;
+              show_res show_vp tm; rows rows_m])
   | "pp" ->
       let bits = if a.(0) = "_" then [] else List.init (String.length a.(0)) (fun i -> a.(0).[i] = '1') in
       Some (string_of_int (int_of_nat (partition_point_bs (fun b -> b) bits)))
